@@ -50,6 +50,7 @@ fn main() {
             "C17chain" => chaincheck::run("C17", &tier, seed),
             "C12chain" => chaincheck::run("C12", &tier, seed),
             "C07chain" => chaincheck::run("C07", &tier, seed),
+            "C14chain" => chaincheck::run("C14", &tier, seed),
             _ => checks::run(&args[2], &tier, seed),
         },
         "show" => checks::show(&args[2], &tier, seed),
